@@ -99,4 +99,17 @@ def errClass : Sp.Err → String
   | _ => "Exception"
 
 
+/-- `self` as `StatusResponse._verify` sees it (no `request_id` given: the client never passes one) -/
+def selfVerify (asynchop : Bool) (dest : Option String) (addrs : List String) : Val :=
+  .obj [("request_id", .none), ("in_response_to", .none),
+        ("response", .obj [("version", .str "2.0"), ("destination", optStr dest)]),
+        ("asynchop", .bool asynchop), ("return_addrs", .list (addrs.map .str))]
+
+def successUri : String := "urn:oasis:names:tc:SAML:2.0:status:Success"
+
+/-- what `self.status_ok()` does, as far as `_verify` can tell: `True` for a Success status, else an exception -/
+def statusExt (statusTop : String) (cls : String) : R Val :=
+  if statusTop != successUri then .raise cls else .ok (.bool true)
+
+
 end PyTie
